@@ -1,5 +1,6 @@
 """C01 - Earley accepts exactly the language of the grammar."""
 import signal
+import sys
 import time
 
 from lib import coq_list
@@ -13,7 +14,9 @@ def L(items, ty=None):
     return coq_list(items)
 
 THEOREMS = ['C01_predictions_spec', 'C01_nullable_spec', 'C01_chart_is_language', 'C01_alg_sound', 'C01_alg_complete', 'C01_basic_trace',
-            'C01_fuel_suffices', 'C01_basic', 'C01_general', 'C01_example']
+            'C01_fuel_suffices', 'C01_basic', 'C01_general', 'C01_example',
+            'C01_dynamic_ends', 'C01_dynamic_trace', 'C01_dynamic_fuel', 'C01_dynamic_sound', 'C01_dynamic_complete',
+            'C01_dynamic_strings', 'C01_dynamic_example']
 GEN_DEPS = []
 RULE = ('random CFGs (<=5 non-terminals, <=4 single-character terminals, <=3 alternatives of length <=3; nullable '
         'alternatives, left/right/middle recursion, unit cycles, ambiguity, useless rules; optionally EBNF operators) '
@@ -29,13 +32,18 @@ RULE = ('random CFGs (<=5 non-terminals, <=4 single-character terminals, <=3 alt
         '(character-level derivability with IGN* at the start and after every terminal for the dynamic lexers; '
         'longest-literal tokenisation for basic); anon-names = anonymous punctuation/keyword literals next to user-defined '
         'or imported terminals that occupy the names lark derives from those literals, inputs = sentences, random '
-        'concatenations of the grammar\'s token strings, one-edit mutations')
+        'concatenations of the grammar\'s token strings, one-edit mutations. dyn-model = multi-character string terminals '
+        'with overlapping %ignore strings, and regexp terminals (several match lengths, alternations whose first alternative '
+        'is not the longest) with string/regexp ignores, under dynamic and dynamic_complete: the regex engine\'s answers (the '
+        'parser\'s own term_matcher on every terminal, position and truncation; the calls made during the parse must agree '
+        'with them) are given to Earley/Dyn.dyn_parse as oracle tables; compared '
+        'inside Coq: item sets of every column and to_scan, the keys of delayed_matches after every scan, the outcome')
 TRUSTED_BASE = ['hand model Earley/Alg.v of earley.Parser.predict_and_complete/scan/_parse/parse and Cfg/Analysis.v of '
                 'GrammarAnalyzer.expand_rule (tied by per-column item-set comparison and direct comparison of '
                 'Parser.predictions / NULLABLE)',
-                'for lexer=dynamic/dynamic_complete the model applies only when every terminal is a single character '
-                '(token string = character string); xearley\'s regex scanning, complete_lex and %ignore carry-over are '
-                'not modelled',
+                'hand model Earley/Dyn.v of xearley.Parser._parse/scan (tied by per-column item sets, delayed_matches keys '
+                'and outcome on recorded regex answers); the regex engine itself is an oracle (rmatch/rtrunc) - its answers '
+                'are recorded, not modelled; hypothesis fwd (no empty match) is lark\'s construction-time zero-width check',
                 'the grammar-of-grammars front end and EBNF->BNF compilation are not modelled (compiled rules are read '
                 'back from lark)']
 ASSUMPTIONS = ['terminals of the main streams are distinct single-character strings, so the basic lexer\'s token string '
@@ -227,8 +235,10 @@ def patch_lark():
 
     def wrapped(self, i, to_scan, columns, transitives, node_cache):
         r = orig(self, i, to_scan, columns, transitives, node_cache)
+        dm = sys._getframe(1).f_locals.get('delayed_matches')      # xearley._parse's pending matches (None for basic)
         _LOG.append((i, [(it.rule, it.ptr, it.start) for it in columns[i]],
-                     [(it.rule, it.ptr, it.start) for it in to_scan]))
+                     [(it.rule, it.ptr, it.start) for it in to_scan],
+                     sorted(dm.keys()) if dm is not None else None))
         return r
     wrapped._lv_orig = orig
     earley.Parser.predict_and_complete = wrapped
@@ -330,7 +340,7 @@ def run_parse(lark, text, timeout=3.0):
 
 def canon_trace(comp, log):
     cols, scans = [], []
-    for k, (i, col, sc) in enumerate(log):
+    for k, (i, col, sc, _dm) in enumerate(log):
         if i != k:
             return None
         cols.append(sorted({(comp.rule_index(r), p, s) for r, p, s in col}))
@@ -748,6 +758,189 @@ def run_text_streams(ctx, rng, wide):
         check_text_grammar(ctx, rng, tg, 'anon-names', lexers, inputs)
 
 
+# ---------------------------------------------------------------------------------------------
+# dynamic lexers against the model Earley/Dyn.v: the regex engine's answers are recorded from the actual calls of
+# the parser's term_matcher and handed to the model as oracle tables
+DYN_IMPORTS = 'From LV Require Import Cfg.Grammar Cfg.Analysis Earley.Spec Earley.Alg Earley.AlgCheck Earley.Dyn Earley.DynCheck.'
+
+
+class DynCompiled(Compiled):
+    def __init__(self, lark):
+        Compiled.__init__(self, lark)
+        self.ignore_ids = []
+        for name in lark.ignore_tokens:
+            self.ignore_ids.append(self.tid.setdefault(name, len(self.tid)))
+
+
+def run_dyn_parse(comp, text, timeout=3.0):
+    """parse with the dynamic lexer recording every call of term_matcher: -> status, pos, log, rmatch, rtrunc"""
+    p = comp.parser
+    orig = p.term_matcher
+    rmatch, rtrunc, last = {}, {}, [None]
+    bad = []
+
+    def rec(term, txt, index=None):
+        if index is not None:
+            m = orig(term, txt, index)
+            last[0] = (term.name, index)
+            if term.name not in comp.tid:
+                bad.append(term.name)
+            else:
+                rmatch[(comp.tid[term.name], index)] = None if m is None else m.end()
+            return m
+        m = orig(term, txt)
+        name, i = last[0] if last[0] else (None, None)
+        if name != term.name or term.name not in comp.tid:
+            bad.append(term.name)
+        else:
+            rtrunc[(comp.tid[name], i, i + len(txt))] = None if m is None else i + m.end()
+        return m
+    p.term_matcher = rec
+    try:
+        status, pos, log = run_parse(comp.lark, text, timeout)
+    finally:
+        p.term_matcher = orig
+    return status, pos, log, rmatch, rtrunc, bad
+
+
+def oracle_tables(comp, text):
+    """what the regex engine answers: rmatch[(t, i)] = end of match(t, text, i); rtrunc[(t, i, lim)] = end of
+    match(t, text[i:lim]) for every proper truncation of that match (the calls complete_lex may make)"""
+    from lark.grammar import Terminal
+    matcher = comp.parser.term_matcher
+    rm, rt = {}, {}
+    for name, t in comp.tid.items():
+        term = Terminal(name)
+        for i in range(len(text)):
+            m = matcher(term, text, i)
+            if m is None:
+                continue
+            rm[(t, i)] = m.end()
+            sm = m.group(0)
+            for j in range(1, len(sm)):
+                m2 = matcher(term, sm[:-j])
+                if m2 is not None:
+                    rt[(t, i, i + len(sm) - j)] = i + m2.end()
+    return rm, rt
+
+
+def check_dyn_grammar(ctx, rng, gtext, inputs, cases, meta, oracle=None):
+    """oracle(text, complete) -> bool | None: optional text-level membership (string-only grammars)"""
+    comps = {}
+    for lexer in ('dynamic', 'dynamic_complete'):
+        st, obj = build(gtext, lexer, 'forest')
+        ctx.count('dyn-model:construct', key=(gtext, lexer), nontrivial=False, construct=st)
+        if st == 'ok':
+            comps[lexer] = DynCompiled(obj)
+        else:
+            ctx.violation('construct', {'grammar': gtext, 'lexer': lexer, 'ambiguity': 'forest', 'mode': 'construct',
+                                        'observed': '%s %s' % (st, obj)}, True,
+                          'constructing the parser %s' % ('did not terminate' if st == 'hang' else 'raised %s %s' % (st, obj)))
+    for lexer, comp in comps.items():
+        runs, rmeta = [], []
+        for text, why in inputs:
+            if len(text) >= 60:
+                continue
+            status, pos, log, rmatch, rtrunc, bad = run_dyn_parse(comp, text)
+            w = {'grammar': gtext, 'lexer': lexer, 'ambiguity': 'forest', 'text': text, 'mode': 'parse-dyn',
+                 'observed': status}
+            tr = canon_trace(comp, log)
+            ctx.count('dyn-model', key=(gtext, lexer, text), nontrivial=len(log) >= 2, lexer=lexer, outcome=status,
+                      input_kind=why)
+            if oracle is not None:
+                want = oracle(text, lexer == 'dynamic_complete')
+                if want is not None:
+                    w['expected_accept'] = want
+                    if status in ('accept', 'UnexpectedEOF', 'UnexpectedCharacters') and (status == 'accept') != want:
+                        ctx.violation('language', w, True, '%s %r although the grammar text %s it'
+                                      % ('accepted' if status == 'accept' else 'rejected', text,
+                                         'derives' if want else 'does not derive'))
+                        continue
+            if status == 'hang':
+                ctx.violation('hang', w, True, 'parse did not terminate within the timeout')
+                ctx.extra['hangs'] = ctx.extra.get('hangs', 0) + 1
+                break
+            if status not in ('accept', 'UnexpectedEOF', 'UnexpectedCharacters'):
+                ctx.violation('exception-class', w, True, 'dynamic lexer raised %s' % status)
+                continue
+            if tr is None or bad:
+                ctx.violation('correspondence:observation-shape', {'no_longer_checks': 'call sequence of xearley', **w},
+                              False, 'unexpected predict_and_complete / term_matcher call sequence (%s)' % bad[:3])
+                continue
+            ncols = len(log)
+            code = 0 if status == 'accept' else 1 if status == 'UnexpectedEOF' else 2 + (ncols - 1)
+            if status == 'UnexpectedCharacters' and pos is not None and pos != ncols - 1:
+                ctx.violation('correspondence:error-position', {'no_longer_checks': 'error position', **w}, False,
+                              'UnexpectedCharacters at %s, scan(%d) raised' % (pos, ncols - 1))
+            keys = [k for (_i, _c, _s, k) in log[1:]]
+            # the oracle tables are computed independently of which calls the parser made (so that the model, not
+            # the code, decides where the engine is consulted); the recorded calls must agree with them
+            full_m, full_t = oracle_tables(comp, text)
+            if any(full_m.get(k) != v for k, v in rmatch.items()) or any(full_t.get(k) != v for k, v in rtrunc.items()):
+                ctx.violation('correspondence:oracle-recording', {'no_longer_checks': 'recorded term_matcher answers', **w},
+                              False, 'term_matcher answers recorded during the parse differ from direct calls')
+                continue
+            rmatch, rtrunc = full_m, full_t
+            mt = sorted((t * 64 + i) * 64 + e for (t, i), e in rmatch.items() if e is not None)
+            tt = sorted(((t * 64 + i) * 64 + lim) * 64 + e for (t, i, lim), e in rtrunc.items() if e is not None)
+            nl = lambda xs: '(' + L(['%d' % x for x in xs], 'N') + ')%N'
+            term = '(%d, %s, %s, %s, %d, %s, %s, %s)' % (
+                len(text), 'true' if lexer == 'dynamic_complete' else 'false', nl(mt), nl(tt), code,
+                coq_sets(tr[0]), coq_sets(tr[1]), '(' + L([L(['%d' % k for k in ks], 'N') for ks in keys], '(list N)') + ')%N')
+            if term not in runs:
+                runs.append(term)
+                rmeta.append(w)
+        if runs:
+            cases['dyn'].append((comp.coq_rules(), comp.start, L(['%d' % x for x in comp.ignore_ids], 'nat'), runs))
+            meta['dyn'].append(rmeta)
+
+
+def dyn_group_term(g):
+    return '(%s, %d, %s, %s)' % (g[0], g[1], g[2], L(g[3]))
+
+
+def run_dyn_stream(ctx, rng, wide, cases, meta):
+    from props import earley_ignore_gen as eig
+    cases['dyn'], meta['dyn'] = [], []
+    n_str, n_re = ctx.scale(6, 60) * wide, ctx.scale(8, 80) * wide
+    n_in = ctx.scale(18, 40)
+    for k in range(n_str + n_re):
+        tg = eig.gen_ignore_grammar(rng) if k < n_str else eig.gen_regex_grammar(rng)
+        inputs = eig.gen_inputs(rng, tg, exhaustive_len=2, n_sent=8, n_mut=8, max_sent_len=7)
+        if len(inputs) > n_in:
+            inputs = inputs[:5] + rng.sample(inputs[5:], n_in - 5)
+        oracle = (lambda text, complete, tg=tg: eig.member_dynamic(tg, text, complete=True)) if tg.string_only() and not tg.re_ignores else None
+        check_dyn_grammar(ctx, rng, tg.render(), inputs, cases, meta, oracle)
+
+
+def run_dyn_coq(ctx, cases, meta):
+    what = 'Earley/Dyn.dyn_parse vs xearley.Parser (item sets per column, delayed_matches keys, outcome; recorded regex answers)'
+    groups = cases.get('dyn') or []
+    if not groups:
+        return
+    bad, errs = ctx.coq_bad_indices('c01dyn', DYN_IMPORTS, 'dyn_check', [dyn_group_term(g) for g in groups], chunk=3)
+    for e in errs:
+        ctx.violation('correspondence:coq-eval', {'no_longer_checks': what, 'error': e}, False, e[:300])
+    single, smeta = [], []
+    for i in bad[:12]:
+        g = groups[i]
+        for t, w in zip(g[3], meta['dyn'][i]):
+            single.append(dyn_group_term((g[0], g[1], g[2], [t])))
+            smeta.append(w)
+    if single:
+        bad2, errs2 = ctx.coq_bad_indices('c01dyn1', DYN_IMPORTS, 'dyn_check', single, chunk=30)
+        for e in errs2:
+            ctx.violation('correspondence:coq-eval', {'no_longer_checks': what, 'error': e}, False, e[:300])
+        for i in bad2:
+            w = dict(smeta[i])
+            w['no_longer_checks'] = what
+            ctx.violation('correspondence:' + what, w, False,
+                          'dynamic-lexer model and implementation differ on grammar %r input %r lexer %s'
+                          % (w.get('grammar'), w.get('text'), w.get('lexer')))
+    ctx.extra['dyn_runs_checked_in_coq'] = sum(len(g[3]) for g in groups)
+    ctx.coq_cases_checked += sum(len(g[3]) for g in groups) - len(groups)
+
+
 def correspond(ctx):
     patch_lark()
     rng = ctx.rng
@@ -756,7 +949,7 @@ def correspond(ctx):
     meta = {'earley': [], 'pred': [], 'null': []}
     seen = set()
     t0 = time.time()
-    n_cfg = ctx.scale(50, 900) * wide
+    n_cfg = ctx.scale(40, 900) * wide
     n_ebnf = ctx.scale(12, 150) * wide
     n_ign = ctx.scale(10, 100) * wide
     n_exh, n_extra = ctx.scale(24, 50), ctx.scale(8, 16)
@@ -776,10 +969,16 @@ def correspond(ctx):
         check_grammar(ctx, rng, render(rng, names, chars, g), 'ignore', cases, meta, seen, n_exh // 2, n_extra,
                       ignore=True)
     run_text_streams(ctx, rng, wide)
+    run_dyn_stream(ctx, rng, wide, cases, meta)
     ctx.extra['lark_seconds'] = round(time.time() - t0, 1)
     run_exotic(ctx)
     t1 = time.time()
-    run_coq(ctx, cases, meta)
+    from concurrent.futures import ThreadPoolExecutor
+    with ThreadPoolExecutor(max_workers=2) as ex:      # the two model comparisons are independent
+        f1 = ex.submit(run_coq, ctx, cases, meta)
+        f2 = ex.submit(run_dyn_coq, ctx, cases, meta)
+        f1.result()
+        f2.result()
     ctx.extra['coq_seconds'] = round(time.time() - t1, 1)
 
 
